@@ -53,3 +53,36 @@ package owned
 //@   trusted
 //@   modifies delegated
 //@   ensures delegated == old(delegated) + 1
+
+// ---------------------------------------------------------------------------
+// C07: ghost trace of the writes a controller issues through the Writer interface. The interface
+// contracts record, per call, what the call established; the generic controllers assert at their
+// Destroy / RemoveFinalizer / Modify call sites that the required earlier step is on record for the
+// same resource pointer.
+//@ ghostvar tdPtr resource.Pointer
+//@ ghostvar tdReady bool
+//@ ghostvar gonePtr resource.Pointer
+//@ ghostvar goneOK bool
+//@ ghostvar finPtr resource.Pointer
+//@ ghostvar finOK bool
+//@
+//@ iface Reader.Get
+//@   ensures [get-result] result1 == nil ==> result0 != nil
+//@
+//@ func WithOwner
+//@   inline
+//@
+//@ iface Writer.Teardown
+//@   params ctx, ptr, opts
+//@   modifies tdPtr, tdReady, gonePtr, goneOK
+//@   ensures [ready-only-without-error] result0 ==> result1 == nil
+//@   ensures [td-record] tdPtr == ptr && tdReady == (result0 && result1 == nil)
+//@   ensures [gone-record] gonePtr == ptr && goneOK == (result1 != nil && isNotFound(result1))
+//@ iface Writer.Destroy
+//@   params ctx, ptr, opts
+//@   modifies gonePtr, goneOK
+//@   ensures [gone-record] gonePtr == ptr && goneOK == (result == nil || isNotFound(result))
+//@ iface Writer.AddFinalizer
+//@   params ctx, ptr, fins
+//@   modifies finPtr, finOK
+//@   ensures [fin-record] finPtr == ptr && finOK == (result == nil)
